@@ -33,7 +33,8 @@ def events(kind=None):
 
 def unconverged_explicit():
     """True if some solve since the last reset used an explicitly requested solver that did not report convergence."""
-    return any(e.get("requested") is not None and e.get("status") not in CONVERGED for e in events("solve"))
+    # for a solver the caller asked for, "optimal_inaccurate" also means that it gave up before reaching its tolerances
+    return any(e.get("requested") is not None and e.get("status") != "optimal" for e in events("solve"))
 
 
 def raw():
